@@ -480,6 +480,24 @@ class deadline:
         return False
 
 
+def unjudged(ctx, fn, *args, **kwargs):
+    """A call the property does not speak about (rejected / meaningless arguments), made between judged calls:
+    the result is not judged and exceptions are swallowed; what matters is that judged calls made afterwards are as
+    right as before (state left behind by an exception path, a consumed iterator, a relaxed tolerance...)."""
+    import warnings
+    ctx.count('unjudged_calls_before_a_judged_one')
+    try:
+        with deadline(30), warnings.catch_warnings():
+            warnings.simplefilter('ignore')
+            fn(*args, **kwargs)
+    except DidNotReturn:
+        ctx.count('unjudged_call_did_not_return_in_30s')
+    except Inconclusive:
+        raise
+    except (Exception, SystemExit) as e:
+        ctx.count('unjudged_call_raised:' + type(e).__name__)
+
+
 # --------------------------------------------------------------------------------------------
 # ambient workload: the repository's own tests executed with the monitors attached
 # --------------------------------------------------------------------------------------------
